@@ -438,12 +438,16 @@ def check(run, repo, tier):
   cmp_ = Counter()
   py = H.python_schema(w)
   ts = TsFile(repo.root, SCHEMA_TS)
+  if ts is None:
+    return          # (reported as an analysis error)
   programs = 0
-  programs += r1_version(run, w, ts, cmp_)
-  programs += r2_schema_literal(run, w, py, ts, cmp_)
-  programs += r3_interface(run, w, py, ts, cmp_)
+  programs += r1_version(run, w, ts, cmp_) or 0
+  programs += r2_schema_literal(run, w, py, ts, cmp_) or 0
+  programs += r3_interface(run, w, py, ts, cmp_) or 0
   r4_generator(run, w)
-  programs += r5_defaults(run, w, TsFile(repo.root, TYPES_TS), cmp_)
+  tt = TsFile(repo.root, TYPES_TS)
+  if tt is not None:
+    programs += r5_defaults(run, w, tt, cmp_) or 0
   run.extra["programs"] = programs
   run.extra["disagreements_checked"] = cmp_.n
   run.extra["programs_rule"] = (
